@@ -58,8 +58,14 @@ EXPLANATION = (
     "hands that callable to create_with_keys, create_with_keys stores the attribute get_writekey() reads on every "
     "path before it invokes the callable (directly or through a method that calls its parameter) with self, and "
     "uploads its result; pack_children forwards its writekey; DirectoryNode._pack_contents and _decrypt_rwcapdata "
-    "use the same key expression. "
-    "Undecided: JSON and Unicode library behaviour, netstring codec itself (covered by its unit tests), AES; which "
+    "use the same key expression; (14) the normalize() that dirnode.py applies to every child name (C19.4) is "
+    "util.encodingutil.normalize, nothing in dirnode.py re-binds the name, and that function - executed abstractly over "
+    "its CFG, each local carrying 'the name as given' / 'NFC of it' / 'something else', a path flag for 'known to be "
+    "ASCII-only or already NFC' - returns on every path unicodedata.normalize('NFC', <the name, possibly decoded>) "
+    "(directly, or through a one-argument package function judged the same way) and the name itself only after "
+    "isascii(), unicodedata.is_normalized('NFC', .), all(ord(c) < 128 ..) or a passed encode('ascii') said so: any "
+    "other shortcut (no combining marks, short, Latin-1 ..) leaves names un-normalised that NFC rewrites. "
+    "Undecided: JSON and Unicode library behaviour (that unicodedata.normalize('NFC', .) is idempotent and stable), netstring codec itself (covered by its unit tests), AES; which "
     "exception type / message a refusal carries; the contents of the MAC (readers ignore it); the modifiers' own "
     "semantics (must_exist, overwrite, metadata merging - not part of the round trip); whether "
     "_create_and_validate_node raises for a child that recorded an error or leaves it to the caller's "
@@ -71,7 +77,7 @@ EXPLANATION = (
 TECHNIQUE = ("static analysis: writer/reader table agreement over def-use closures, CFG gate rules, constant folding, "
              "truth-table equivalence of predicate methods, exhaustive abstract execution of UnknownNode.__init__, "
              "AST interpretation of uri.from_string over every cap kind and context, must-precede of the key store "
-             "before the initial-contents callable")
+             "before the initial-contents callable, abstract execution of normalize() over (value tag, NFC-known) states")
 
 DN = "dirnode:DirectoryNode"
 PACK = "dirnode:_pack_normalized_children"
@@ -2304,3 +2310,212 @@ def run(ctx: Context):
             s1 = N(pcn).norm(a1) if a1 is not None else None
             r.require(s1 is not None and s1 == rks, pcn, pcn.loc(c), "the directory is written with key %s but its rw fields "
                       "are decrypted with %s" % (s1, rks))
+
+    # -- 14. what normalize() answers ---------------------------------------------------------------
+    # C19.4 decides that every name that goes into / comes out of a children dict went through normalize(); the
+    # round trip needs that to *be* NFC: the writer, the reader and every lookup must agree on one spelling per name.
+    with ctx.rule("C19.14", "R3", "the normalize() dirnode.py uses is util.encodingutil.normalize (or a wrapper judged the "
+                  "same way), and on every path it returns unicodedata.normalize('NFC', <the name, possibly decoded>) - the "
+                  "name as given only after an edge that established it to be ASCII-only or already NFC "
+                  "(isascii(), unicodedata.is_normalized('NFC', .), encode('ascii') passed)", expected=2) as r:
+        folder = get_folder(idx)
+        used = idx.resolve_name(dmod, "normalize")
+        if not isinstance(used, FuncInfo):
+            raise AnchorVanished("dirnode.py no longer binds the name normalize to a function")
+        r.site(used, None, "the normalize() of dirnode.py")
+        for f in idx.funcs.values():
+            if f.module is dmod and f is not used and (
+                    "normalize" in f.params or "normalize" in def_exprs(f) or "normalize" in f.nested):
+                r.violation(f, f.loc(), "%s re-binds the name normalize: the names it handles are not normalised by "
+                            "util.encodingutil.normalize" % short(f))
+        IN, NFC, OTHER = "the name as given", "NFC", "something else"
+        judged = {}
+
+        def lib_name(fn, e):
+            """dotted name of a library function the expression denotes (through the module's imports)"""
+            p = attr_path(e)
+            if not p:
+                return None
+            root, _dot, rest = p.partition(".")
+            if root in _local_names_of(fn):
+                return None
+            imp = fn.module.imports.get(root)
+            if imp is None:
+                return None
+            return imp + ("." + rest if rest else "")
+
+        def _local_names_of(fn):
+            out = set(fn.params)
+            for n in fn.cfg().nodes:
+                out |= {x for x in node_stores(n) if "." not in x and not x.endswith("[]")}
+            return out
+
+        def const_of(fn, e):
+            try:
+                return folder.fold(e, fn.module, fn.cls)
+            except NotConstant:
+                return None
+
+        def judge(fn, depth=0):
+            """[(node, message, witness)] - why fn is not 'NFC of its argument' ([] when it is)"""
+            if fn.qual in judged:
+                return judged[fn.qual]
+            judged[fn.qual] = []                         # recursion: assume fine, the outer call decides
+            ps = first_positional_params(fn)
+            if len(ps) != 1 or fn.cls is not None or depth > 2:
+                judged[fn.qual] = [(None, "%s is not a one-argument function that can be followed" % short(fn), None)]
+                return judged[fn.qual]
+            p = ps[0]
+            cfg = fn.cfg()
+            locs = _local_names_of(fn)
+
+            def ev(e, env, gated):
+                """set of tags the value of e may carry"""
+                if isinstance(e, ast.Name):
+                    return env.get(e.id, frozenset([OTHER]))
+                if isinstance(e, ast.Constant) and isinstance(e.value, str):
+                    return frozenset([("K", e.value)])   # a string constant held in a local (the form name)
+                if isinstance(e, ast.NamedExpr):
+                    return ev(e.value, env, gated)
+                if isinstance(e, ast.IfExp):
+                    t, pol = e.test, True
+                    while isinstance(t, ast.UnaryOp) and isinstance(t.op, ast.Not):
+                        t, pol = t.operand, not pol
+                    est = established(t, env)
+                    a = ev(e.body, env, gated or (est and pol))
+                    b = ev(e.orelse, env, gated or (est and not pol))
+                    if est and pol:
+                        a = frozenset(NFC if x == IN else x for x in a)
+                    if est and not pol:
+                        b = frozenset(NFC if x == IN else x for x in b)
+                    return a | b
+                if isinstance(e, ast.BoolOp):
+                    out = frozenset()
+                    for v in e.values:
+                        out |= ev(v, env, gated)
+                    return out
+                if isinstance(e, ast.Call):
+                    ln = lib_name(fn, e.func)
+                    if ln == "unicodedata.normalize":
+                        form, x = arg(e, 0, "form"), arg(e, 1, "unistr")
+                        if form is not None and x is not None and is_nfc(form, env) and ev(x, env, gated) <= {IN, NFC}:
+                            return frozenset([NFC])
+                        return frozenset([OTHER])
+                    if isinstance(e.func, ast.Attribute) and e.func.attr == "decode":
+                        return frozenset(IN if x == IN else OTHER for x in ev(e.func.value, env, gated))
+                    if isinstance(e.func, ast.Name) and e.func.id == "str" and e.func.id not in locs and e.args:
+                        return frozenset(IN if x == IN else OTHER for x in ev(e.args[0], env, gated))
+                    tgt = idx.resolve_expr(fn.module, e.func) if isinstance(e.func, (ast.Name, ast.Attribute)) and \
+                        (attr_path(e.func) or "").split(".", 1)[0] not in locs else None
+                    if isinstance(tgt, FuncInfo) and len(e.args) == 1 and not e.keywords and not judge(tgt, depth + 1) \
+                            and ev(e.args[0], env, gated) <= {IN, NFC}:
+                        return frozenset([NFC])
+                return frozenset([OTHER])
+
+            def is_nfc(form, env):
+                if isinstance(form, ast.Name) and form.id in env:
+                    return env[form.id] == frozenset([("K", "NFC")])
+                return const_of(fn, form) == "NFC"
+
+            def established(t, env):
+                """the test, when true, says that a value carrying the name is ASCII-only / already NFC"""
+                if not isinstance(t, ast.Call):
+                    return False
+
+                def is_name(x):
+                    v = ev(x, env, False)
+                    return bool(v) and v <= {IN, NFC}
+                if isinstance(t.func, ast.Attribute) and t.func.attr == "isascii" and not t.args and not t.keywords:
+                    return is_name(t.func.value)
+                if lib_name(fn, t.func) == "unicodedata.is_normalized":
+                    form, x = arg(t, 0, "form"), arg(t, 1, "unistr")
+                    return form is not None and x is not None and is_nfc(form, env) and is_name(x)
+                if isinstance(t.func, ast.Name) and t.func.id == "all" and t.func.id not in locs and len(t.args) == 1 \
+                        and isinstance(t.args[0], (ast.GeneratorExp, ast.ListComp)) and len(t.args[0].generators) == 1:
+                    g = t.args[0].generators[0]
+                    c = t.args[0].elt
+                    if g.ifs or not isinstance(g.target, ast.Name) or not is_name(g.iter):
+                        return False
+                    if isinstance(c, ast.Compare) and len(c.ops) == 1 and isinstance(c.left, ast.Call) \
+                            and isinstance(c.left.func, ast.Name) and c.left.func.id == "ord" and len(c.left.args) == 1 \
+                            and isinstance(c.left.args[0], ast.Name) and c.left.args[0].id == g.target.id:
+                        lim = const_of(fn, c.comparators[0])
+                        return (isinstance(c.ops[0], ast.Lt) and lim == 128) or (isinstance(c.ops[0], ast.LtE) and lim == 127)
+                return False
+
+            def ascii_encoded(n, env):
+                for c in node_calls(n):
+                    if isinstance(c.func, ast.Attribute) and c.func.attr == "encode" and c.args \
+                            and str(const_of(fn, c.args[0])).lower().replace("_", "-") in ("ascii", "us-ascii") \
+                            and (kwarg(c, "errors") is None and len(c.args) == 1):
+                        v = ev(c.func.value, env, False)
+                        if v and v <= {IN, NFC}:
+                            return True
+                return False
+
+            def freeze(env):
+                return frozenset(env.items())
+
+            def transfer(n, lab, nxt, st):
+                gated, fenv = st
+                env = dict(fenv)
+                if n.kind == "test" and isinstance(lab, tuple) and lab[0] == "T" and established(n.ast, env):
+                    gated = True
+                if n.kind == "stmt" and lab != "exc" and not gated and ascii_encoded(n, env):
+                    gated = True
+                a = n.ast
+                if n.kind == "stmt" and isinstance(a, (ast.Assign, ast.AnnAssign)) and lab != "exc":
+                    ts = a.targets if isinstance(a, ast.Assign) else [a.target]
+                    v = ev(a.value, env, gated) if a.value is not None else frozenset([OTHER])
+                    for t in ts:
+                        if isinstance(t, ast.Name):
+                            env[t.id] = v
+                        else:
+                            for x in ast.walk(t):
+                                if isinstance(x, ast.Name) and isinstance(x.ctx, ast.Store):
+                                    env[x.id] = frozenset([OTHER])
+                elif n.kind in ("stmt", "iter", "with", "except"):
+                    for nm in node_stores(n):
+                        if "." not in nm and not nm.endswith("[]"):
+                            env[nm] = frozenset([OTHER])
+                return (gated, freeze(env))
+            init = (False, freeze({p: frozenset([IN])}))
+            visited, parent = explore(cfg, init, transfer)
+            r.count(len(visited))
+            problems, said = [], set()
+            for (nid, st) in sorted(visited, key=lambda x: (x[0], x[1][0], sorted((k, sorted(map(repr, v))) for (k, v) in x[1][1]))):
+                n = cfg.nodes[nid]
+                if not is_return(n):
+                    continue
+                gated, fenv = st
+                tags = ev(n.ast.value, dict(fenv), gated) if n.ast.value is not None else frozenset([OTHER])
+                tags = frozenset(OTHER if isinstance(x, tuple) else x for x in tags)
+                if gated:
+                    tags = frozenset(NFC if x == IN else x for x in tags)
+                for t in sorted(tags - {NFC}):
+                    if (nid, t) in said:
+                        continue
+                    said.add((nid, t))
+                    w = witness(cfg, parent, (nid, st))
+                    if t == IN:
+                        problems.append((n, "%s returns the name as given (%s) on a path that established neither that it "
+                                         "is ASCII-only nor that it already is NFC (path: %s): NFC also rewrites singleton "
+                                         "mappings (U+212B, U+2126 ..), Hangul jamo and composition exclusions, so such names "
+                                         "are stored and looked up un-normalised and the NFC spelling of the same name "
+                                         "addresses another entry" % (short(fn), src(fn, n.ast.value), w.brief()), w))
+                    else:
+                        problems.append((n, "%s returns %s, which is not unicodedata.normalize('NFC', <the name>) (path: %s): "
+                                         "names are not stored in the one spelling every reader and lookup expects"
+                                         % (short(fn), src(fn, n.ast.value) if n.ast.value is not None else "None",
+                                            w.brief()), w))
+            for (t_, w) in find_path_avoiding(cfg, lambda x: x.kind == "exit", gate_node=is_return):
+                problems.append((None, "%s can end without returning the normalised name" % short(fn), w))
+            judged[fn.qual] = problems
+            return problems
+        rets = [n for n in used.cfg().find(is_return) if n.id in used.cfg().reachable_nodes()]
+        if not rets:
+            raise AnchorVanished("%s returns nothing" % short(used))
+        for n in rets:
+            r.site(used, n.ast, "return")
+        for (n, msg, w) in judge(used):
+            r.violation(used, used.loc(n.ast if n is not None else None), msg, w)
